@@ -46,6 +46,7 @@ def run(P, rep, tier):
     rep.attempt(r2_node_ops, P, rep, ctx)
     rep.attempt(r3_namespace_owner, P, rep, ctx, tier)
     rep.attempt(r4_cleanup, P, rep, ctx)
+    rep.attempt(r8_replace_not_rewrite, P, rep, ctx)
     rep.attempt(r_loader_agreement, P, rep, ctx, "C06.R5")
     rep.attempt(_r6, P, rep, ctx)
     # the per-node table of attached objects (and the metadata directory path) is rebuilt from the container on every
@@ -76,6 +77,40 @@ RAWG = ("self.__wrapped__", "self._self_raw", "self._raw")
 def _loop_always(f: "F", loop_idx: int, nodes, edges=()) -> bool:
     """every iteration of the loop (from its body entry back to the loop head) passes one of nodes / takes one of edges"""
     return f.hit_before(loop_idx, nodes=nodes, edges=edges, src_edge=(loop_idx, "iter"))
+
+
+def r_unlink_threading(P, rep, ctx, rule):
+    """the `_unlink` switch (keep TOC links while destroying *copied* metadata) is threaded through every recursion
+    and originates as False only in copy(..., without_meta=True)"""
+    # threading of the _unlink switch
+    targets = {"_del_raw", "_destroy", "_destroy_meta"}
+    n_thread = 0
+    literal_false = []
+    for fn in P.functions.values():
+        if fn.module.name not in (I, W):
+            continue
+        has_param = "_unlink" in fn.params
+        for c in local_calls(fn.node):
+            if call_attr(c) not in targets:
+                continue
+            kw = kwarg(c, "_unlink")
+            if has_param:
+                n_thread += 1
+                rep.check(kw is not None and norm(kw) == "_unlink", rule, fn.qual, f"{call_attr(c)} is called with the caller's _unlink switch", fn.loc(c), construct=norm(c),
+                          message=f"{fn.qual} takes `_unlink` but calls {norm(c)} without passing it on: a data-only group copy (without_meta=True) then unregisters the TOC links of the *original* nested objects")
+            elif kw is not None and norm(kw) != "True":
+                literal_false.append((fn, c))
+    if n_thread < 3:
+        raise AnalysisError(f"C06.R1: only {n_thread} threaded _unlink calls found")
+    for fn, c in literal_false:
+        ok = fn.qual == f"{W}.MetadorGroup.copy"
+        if ok:
+            ff = F(ctx, fn)
+            site = node_of(ff.g, c)
+            wm = ff.tests("without_meta", "kwargs.pop('without_meta', False)")
+            ok = site is not None and bool(wm) and ff.hit_before(site, edges=wm)
+        rep.check(ok, rule, fn.qual, "metadata is destroyed without unlinking only for copy(..., without_meta=True)", fn.loc(c), construct=norm(c), message=f"{norm(c)} in {fn.qual}: links are kept although objects are deleted outside the copy-without-metadata case")
+    rep.check(len(literal_false) == 1, rule, f"{W}.MetadorGroup.copy", "exactly one origin of _unlink=False", "", construct="origins of _unlink=False", message=f"{len(literal_false)} call sites pass a non-True _unlink")
 
 
 def r1_pairing(P, rep, ctx):
@@ -125,35 +160,7 @@ def r1_pairing(P, rep, ctx):
     sig = fi.node.args
     dfl = {a.arg: norm(d) for a, d in zip(sig.kwonlyargs, sig.kw_defaults) if d is not None}
     rep.check(dfl.get("_unlink") == "True", "C06.R1", fi.qual, "_unlink defaults to True", fi.loc(), construct="_unlink default", message=f"_del_raw's _unlink defaults to {dfl.get('_unlink')}")
-    # threading of the _unlink switch
-    targets = {"_del_raw", "_destroy", "_destroy_meta"}
-    n_thread = 0
-    literal_false = []
-    for fn in P.functions.values():
-        if fn.module.name not in (I, W):
-            continue
-        has_param = "_unlink" in fn.params
-        for c in local_calls(fn.node):
-            if call_attr(c) not in targets:
-                continue
-            kw = kwarg(c, "_unlink")
-            if has_param:
-                n_thread += 1
-                rep.check(kw is not None and norm(kw) == "_unlink", "C06.R1", fn.qual, f"{call_attr(c)} is called with the caller's _unlink switch", fn.loc(c), construct=norm(c),
-                          message=f"{fn.qual} takes `_unlink` but calls {norm(c)} without passing it on: a data-only group copy (without_meta=True) then unregisters the TOC links of the *original* nested objects")
-            elif kw is not None and norm(kw) != "True":
-                literal_false.append((fn, c))
-    if n_thread < 3:
-        raise AnalysisError(f"C06.R1: only {n_thread} threaded _unlink calls found")
-    for fn, c in literal_false:
-        ok = fn.qual == f"{W}.MetadorGroup.copy"
-        if ok:
-            ff = F(ctx, fn)
-            site = node_of(ff.g, c)
-            wm = ff.tests("without_meta", "kwargs.pop('without_meta', False)")
-            ok = site is not None and bool(wm) and ff.hit_before(site, edges=wm)
-        rep.check(ok, "C06.R1", fn.qual, "metadata is destroyed without unlinking only for copy(..., without_meta=True)", fn.loc(c), construct=norm(c), message=f"{norm(c)} in {fn.qual}: links are kept although objects are deleted outside the copy-without-metadata case")
-    rep.check(len(literal_false) == 1, "C06.R1", f"{W}.MetadorGroup.copy", "exactly one origin of _unlink=False", "", construct="origins of _unlink=False", message=f"{len(literal_false)} call sites pass a non-True _unlink")
+    r_unlink_threading(P, rep, ctx, "C06.R1")
     # unregister
     fi = P.func(f"{I}.TOCLinks.unregister")
     f = F(ctx, fi)
@@ -400,6 +407,29 @@ def r3_namespace_owner(P, rep, ctx, tier):
                           message=f"{owner.qual} writes into the reserved metador_* namespace ({norm(node)[:90]}); only container/interface.py and move/copy of the wrappers may")
     if n < 10:
         raise AnalysisError(f"C06.R3: only {n} bookkeeping writes found")
+
+
+def r8_replace_not_rewrite(P, rep, ctx):
+    """Stored bookkeeping datasets are replaced (delete + create), never rewritten in place: on the IH5 driver a dataset
+    that lives in an earlier patch cannot be written (`node[()] = v` raises there, after the data was already moved)."""
+    n = 0
+    for fi in P.functions.values():
+        if fi.module.name not in (I, W) or not isinstance(fi.node, (ast.FunctionDef, ast.AsyncFunctionDef)):
+            continue
+        n += 1
+        bad = []
+        for st in walk_local(fi.node):
+            if isinstance(st, (ast.Assign, ast.AugAssign)):
+                for kind, t in store_targets(st):
+                    if isinstance(t, ast.Subscript) and (norm(t.slice) in ("()", "...", "Ellipsis") or isinstance(t.slice, ast.Slice)) and not (isinstance(t.value, ast.Name) and t.value.id in ("ret", "out", "res", "buf")):
+                        bad.append(st)
+            if isinstance(st, ast.Call) and call_attr(st) in ("write_direct", "resize"):
+                bad.append(st)
+        for b_ in bad:
+            rep.fail("C06.R8", fi.qual, f"in-place dataset write: {norm(b_)[:80]}", f"{fi.qual} rewrites a stored dataset in place ({norm(b_)[:80]}): works on h5py, raises on IH5 for nodes of an earlier patch (e.g. a move across a patch boundary fails half-way and leaves the TOC links pointing at the old paths)", fi.loc(b_))
+    rep.ok("C06.R8", I, f"{n} bookkeeping / wrapper functions scanned for in-place dataset writes", P.module(I).relpath)
+    if n < 50:
+        raise AnalysisError(f"C06.R8: only {n} functions scanned")
 
 
 def r4_cleanup(P, rep, ctx):
